@@ -577,26 +577,27 @@ def unit(args: dict) -> dict:
 
 def families(tier: str, seed: int) -> List[gen.Spec]:
     q = tier == "quick"
-    return (family_W(seed, 10 if q else 150)
-            + gen.family_T_random(seed + 1, 2 if q else 30, min_states=3, max_states=5)
-            + gen.family_H(seed + 2, 1 if q else 20)
-            + gen.family_D(seed + 3, 1 if q else 20)
-            + gen.family_S(seed + 4, 3 if q else 40)
-            + gen.family_R(seed + 5, 2 if q else 30)
-            + gen.family_G(seed + 6, 2 if q else 30, depth=2)
-            + gen.family_E(seed + 7, 2 if q else 30)
-            + gen.family_X(seed + 8, 2 if q else 12)
-            + gen.family_V(seed + 9, 2 if q else 12)
-            + gen.family_A(seed + 10, 2 if q else 20))
+    return (family_W(seed, 10 if q else 60)
+            + gen.family_T_random(seed + 1, 2 if q else 12, min_states=3, max_states=5)
+            + gen.family_H(seed + 2, 1 if q else 6)
+            + gen.family_D(seed + 3, 1 if q else 8)
+            + gen.family_S(seed + 4, 3 if q else 16)
+            + gen.family_R(seed + 5, 2 if q else 12)
+            + gen.family_G(seed + 6, 2 if q else 12, depth=2)
+            + gen.family_E(seed + 7, 2 if q else 12)
+            + gen.family_X(seed + 8, 2 if q else 10)
+            + gen.family_V(seed + 9, 2 if q else 10)
+            + gen.family_A(seed + 10, 2 if q else 10))
 
 
 def rewrite_sets(tier: str, seed: int) -> List[frozenset]:
     rng = random.Random(seed)
     sets = [frozenset(), frozenset(REWRITES)] + [frozenset([r]) for r in REWRITES]
-    for _ in range(6 if tier == "quick" else 120):
+    for _ in range(6 if tier == "quick" else 40):
         sets.append(frozenset(r for r in REWRITES if rng.random() < 0.4))
     if tier != "quick":
-        sets += [frozenset([a, b]) for i, a in enumerate(REWRITES) for b in REWRITES[i + 1:]]
+        pairs = [frozenset([a, b]) for i, a in enumerate(REWRITES) for b in REWRITES[i + 1:]]
+        sets += rng.sample(pairs, 50)
     return list(dict.fromkeys(sets))
 
 
@@ -606,7 +607,7 @@ def run(prop: str, tier: str, seed: int) -> int:
     specs = families(tier, seed)
     rsets = rewrite_sets(tier, seed)
     units: List[dict] = [{"kind": "negative"}]
-    budget = 45 if q else 4000          # corrupted nodes per machine (x 11 values)
+    budget = 45 if q else 400           # corrupted nodes per machine (x 11 values)
     for sp in sorted(specs, key=lambda s: len(json.dumps(s.config)), reverse=True):
         units.append({"kind": "corrupt", "specs": [sp], "stride": max(1, fe.count_nodes(sp.config) // budget), "offset": seed})
     for i, sp in enumerate(specs):
